@@ -356,7 +356,13 @@ class Quantity(GenericQuantity):
         UnitsError
             If `units` are incompatible with the units of this quantity.
         """
-        return '%g %s' % (self.in_units(units), units)
+        text = '%g' % self.in_units(units)
+        if 'e' in text:
+            # Same six significant digits, written positionally: the units
+            # parser does not read exponents.
+            from decimal import Decimal
+            text = format(Decimal(text), 'f')
+        return '%s %s' % (text, units)
 
 
 class ArrayQuantity(GenericQuantity, np.ndarray):
